@@ -76,7 +76,7 @@ Proof.
 Qed.
 
 (** the [abs] is redundant *)
-Lemma C12_rank_noabs beta teams i : GaussFacts Phi Phiinv ->
+Lemma C12_rank_noabs beta teams i : GaussCDF Phi Phiinv ->
   0 < beta -> (2 <= length teams)%nat -> Forall (fun t => t <> []) teams -> (i < length teams)%nat ->
   nth i (map snd (predict_rank beta teams)) 0
   = Rsum (map (fun j => rank_term beta (length teams) (length (concat teams)) (nth i teams []) (nth j teams []))
@@ -85,7 +85,7 @@ Lemma C12_rank_noabs beta teams i : GaussFacts Phi Phiinv ->
 Proof.
   intros GF Hb Hn Hne Hi. rewrite (C12_rank beta teams i Hb Hn Hne Hi).
   apply Rabs_right. apply Rle_ge. apply Rmult_le_pos.
-  - apply Rsum_map_nonneg. intros j _. unfold rank_term. left. apply (gf_range _ _ GF).
+  - apply Rsum_map_nonneg. intros j _. unfold rank_term. left. apply (gc_range _ _ GF).
   - left. apply Rinv_0_lt_compat. now apply half_pairs_pos.
 Qed.
 
@@ -117,7 +117,7 @@ Proof.
 Qed.
 
 (** the two directed terms of a pair add up to something non-negative *)
-Lemma draw_pair_nonneg beta k np ta tb : GaussFacts Phi Phiinv ->
+Lemma draw_pair_nonneg beta k np ta tb : GaussCDF Phi Phiinv ->
   0 < beta -> (1 <= k)%nat -> (2 <= np)%nat ->
   0 <= draw_term beta k np ta tb + draw_term beta k np tb ta.
 Proof.
@@ -135,7 +135,7 @@ Proof.
 Qed.
 
 (** for two teams [predict_draw] is the plain sum of the two directed terms *)
-Lemma C12_draw2 beta ta tb : GaussFacts Phi Phiinv -> 0 < beta -> ta <> [] -> tb <> [] ->
+Lemma C12_draw2 beta ta tb : GaussCDF Phi Phiinv -> 0 < beta -> ta <> [] -> tb <> [] ->
   predict_draw beta [ta; tb]
   = draw_term beta 2 (length ta + length tb) ta tb + draw_term beta 2 (length ta + length tb) tb ta.
 Proof.
@@ -162,7 +162,7 @@ Lemma C12_draw2_abs_R beta ta tb : 0 < beta -> ta <> [] -> tb <> [] ->
     + (Phi ((margin Phiinv beta (length ta + length tb) - - (Tmu ta - Tmu tb)) / sqrt (2 * (beta * beta) + Tvar ta + Tvar tb))
        - Phi ((- (Tmu ta - Tmu tb) - margin Phiinv beta (length ta + length tb)) / sqrt (2 * (beta * beta) + Tvar ta + Tvar tb)))).
 Proof. intros Hb Ha Hb'. rewrite (C12_draw2_abs beta ta tb Hb Ha Hb'), draw2_terms. reflexivity. Qed.
-Lemma C12_draw2_R beta ta tb : GaussFacts Phi Phiinv -> 0 < beta -> ta <> [] -> tb <> [] ->
+Lemma C12_draw2_R beta ta tb : GaussCDF Phi Phiinv -> 0 < beta -> ta <> [] -> tb <> [] ->
   predict_draw beta [ta; tb]
   = (Phi ((margin Phiinv beta (length ta + length tb) - (Tmu ta - Tmu tb)) / sqrt (2 * (beta * beta) + Tvar ta + Tvar tb))
      - Phi ((Tmu ta - Tmu tb - margin Phiinv beta (length ta + length tb)) / sqrt (2 * (beta * beta) + Tvar ta + Tvar tb)))
@@ -171,7 +171,7 @@ Lemma C12_draw2_R beta ta tb : GaussFacts Phi Phiinv -> 0 < beta -> ta <> [] -> 
 Proof. intros GF Hb Ha Hb'. rewrite (C12_draw2 beta ta tb GF Hb Ha Hb'), draw2_terms. reflexivity. Qed.
 
 (** for more teams the [abs] is redundant too *)
-Lemma C12_drawN_noabs beta teams : GaussFacts Phi Phiinv ->
+Lemma C12_drawN_noabs beta teams : GaussCDF Phi Phiinv ->
   0 < beta -> (3 <= length teams)%nat -> Forall (fun t => t <> []) teams ->
   predict_draw beta teams
   = Rsum (map (fun i => Rsum (map (fun j =>
